@@ -1127,12 +1127,16 @@ class xfunc_quantile(xfunc):
             a = a[ind]
             w = w[ind]
 
-            if self.ignore_missing:
-                missing = numpy.isnan(a) | numpy.isnan(w)
-                if numpy.any(missing):
+            missing = numpy.isnan(a) | numpy.isnan(w)
+            if numpy.any(missing):
+                if self.ignore_missing:
                     valid = ~missing
                     a = a[valid]
                     w = w[valid]
+                else:
+                    # Propagate: a missing value or weight anywhere in the
+                    # cell makes its quantile missing, like numpy.quantile.
+                    return NaN
 
             N = len(w)
             if N == 0:
